@@ -334,6 +334,9 @@ func genC15(t *rapid.T) c15Case {
 		case "name-case": // a sibling that differs from another only in case
 			if len(q.Queues) >= 1 {
 				src := q.Queues[rapid.IntRange(0, len(q.Queues)-1).Draw(t, "sib")]
+				if src.Name == "" {
+					break
+				}
 				cp := configs.QueueConfig{Name: strings.ToUpper(src.Name[:1]) + src.Name[1:]}
 				if rapid.Bool().Draw(t, "case-all") {
 					cp.Name = strings.ToUpper(src.Name)
